@@ -1662,7 +1662,13 @@ impl FixWord {
 
         // TeX.2021.571 (store_scaled)
         let [a, b, c, d] = self.0.to_be_bytes();
-        assert!(a == 0 || a == 255);
+        if a != 0 && a != 255 {
+            // The number is not less than 16 in absolute value, which is invalid in a .tfm file.
+            // TeX aborts loading the font in this case (TeX.2021.571) while TFtoPL and PLtoTF
+            // replace the number by zero (TFtoPL.2014.60); we do the latter.
+            // Use [`FixWord::is_abs_less_than_16`] to detect this case.
+            return common::Scaled::ZERO;
+        }
         let sw = (((z * (d as i32)) / 0o400 + (z * (c as i32))) / 0o400 + z * (b as i32)) / beta;
         if a == 255 {
             // In this case self < 0.
